@@ -1740,10 +1740,13 @@ impl<'input, T: Input> Scanner<'input, T> {
         // Chomp the tail.
         if chomping != Chomping::Strip {
             string.push_str(&leading_break);
-            // If we had reached an eof but the last character wasn't an end-of-line, check if the
-            // last line was indented at least as the rest of the scalar, then we need to consider
-            // there is a newline.
-            if self.input.next_is_z() && self.mark.col >= indent.max(1) {
+            // If we had reached an eof but the last character wasn't an end-of-line (no break was
+            // read after the last content line), check if the last line was indented at least as
+            // the rest of the scalar, then we need to consider there is a newline.
+            if self.input.next_is_z()
+                && leading_break.is_empty()
+                && self.mark.col >= indent.max(1)
+            {
                 string.push('\n');
             }
         }
